@@ -447,8 +447,19 @@ def run_ops(ck, binary, ops, tag):
     """Runs the op file through the implementation; on process death bisects to the killing op."""
     fn = ck.path("ops_%s.txt" % tag)
     open(fn, "w").write("\n".join(ops) + "\n")
-    rc, out, err = ck.run_bin(binary, stdin_path=fn, mem_gb=3, timeout=60)
-    impl = out.split("\n")[:-1]
+    for limit in (180, 1500):
+        rc, out, err = ck.run_bin(binary, stdin_path=fn, mem_gb=3, timeout=limit)
+        impl = out.split("\n")[:-1]
+        if rc != 124 or len(impl) >= len(ops):
+            break
+        # ran out of time: a decoder that hangs on the op after the last answered line, or a starved machine?
+        # The op is re-run on its own; only if it does not answer alone either is it reported (below).
+        f1 = ck.path("ops_%s_alone.txt" % tag)
+        open(f1, "w").write(ops[0] + "\n" + ops[len(impl)] + "\n")
+        rc1, out1, _ = ck.run_bin(binary, stdin_path=f1, mem_gb=3, timeout=120)
+        if rc1 != 0 or len(out1.split("\n")[:-1]) != 2:
+            break
+        ck.count("op-file-rerun-after-timeout-on-loaded-machine")
     if rc != 0 or len(impl) != len(ops):
         # a fatal runtime error kills the process: the op after the last answered line did it
         k = len(impl)
